@@ -195,8 +195,16 @@ impl fmt::Display for HumanFloatCount {
             Some((int_str, fract_str)) => (int_str.to_string(), fract_str),
             None => (num.clone(), ""),
         };
-        let len = int_part.len();
-        for (idx, c) in int_part.chars().enumerate() {
+        // The sign is not a digit: it takes no part in the grouping
+        let digits = match int_part.strip_prefix('-') {
+            Some(digits) => {
+                f.write_char('-')?;
+                digits
+            }
+            None => int_part.as_str(),
+        };
+        let len = digits.len();
+        for (idx, c) in digits.chars().enumerate() {
             let pos = len - idx - 1;
             f.write_char(c)?;
             if pos > 0 && pos % 3 == 0 {
